@@ -17,6 +17,8 @@ pub struct SimCfg {
     pub max_conns_per_pair: usize,
     /// multi-hop chain: nodes in a line, only the last one holds blocks, the others query
     pub chain: bool,
+    /// some keys have contents larger than a yamux window (back-pressure on the senders' sinks)
+    pub big: bool,
 }
 
 pub struct RunResult {
@@ -324,13 +326,15 @@ pub fn run_one(seed: u64, cfg: &SimCfg) -> RunResult {
         .map(|_| if cfg.prefixes { rng.pick(&[None, Some("/a".to_string()), Some("/b".to_string()), Some("/a".to_string())]).clone() } else { None })
         .collect();
     let sdh = rng.chance(3, 4);
-    let mut sim = Sim::new(n, &prefixes, sdh, cfg.keys.max(8));
+    let mut sim = Sim::new(n, &prefixes, sdh, if cfg.big { 92 } else { cfg.keys.max(8) });
+    // the keys of this run: 0..keys, plus two keys with big contents
+    let keyset: Vec<u64> = (0..cfg.keys).chain(if cfg.big { vec![90u64, 91] } else { vec![] }).collect();
     if cfg.prefixes {
         // failing stream negotiations retry in zero virtual time: keep such loops short
         sim.autotick_steps = 300;
     }
     // initial contents
-    for k in 0..cfg.keys {
+    for &k in &keyset {
         for i in 0..n {
             if (cfg.chain && i == n - 1) || (!cfg.chain && rng.chance(1, 3)) {
                 sim.nodes[i].content.insert(k, k * 100);
@@ -366,7 +370,7 @@ pub fn run_one(seed: u64, cfg: &SimCfg) -> RunResult {
                 0..=49 => {
                     // in a chain the querying nodes are all but the last
                     let a = if cfg.chain { rng.below(n - 1) } else { rng.below(n) };
-                    let k = rng.below(cfg.keys as usize) as u64;
+                    let k = keyset[rng.below(keyset.len())];
                     sim.poll_swarm(a);
                     let q = sim.nodes[a].swarm.behaviour_mut().user_get(k, true);
                     let qn: u64 = crate::sim::qnum(&q).parse().unwrap_or(0);
